@@ -11,9 +11,11 @@ REGISTRY = {
     "C01": {
         "engine": "engine_deser",
         "theorems": [(A + "AcceptThm", "Api.C01_accept"), (A + "AcceptThm", "Api.accepts_iff_conforms"), (A + "AcceptThm", "Api.compile_noFail"),
-                     (A + "UnionSelThm", "Api.C01_accept_union"), (A + "ImageThm", "Api.C01_image_partial")],
-        "partial": "C01_accept: acceptance <=> `conforms` on Ty.acc (sets, unions nested below the root and field-level fall_back_on_default outside); "
-                   "C01_accept_union: unions at the root, no float-like alternative; C01_image_partial: typed image on the index-keyed fragment",
+                     (A + "UnionSelThm", "Api.C01_accept_union"), (A + "AcceptUnionThm", "Api.C01_acceptU"), (A + "AcceptUnionThm", "Api.acceptsU"),
+                     (A + "AcceptThm", "Api.compile_noFailU"), (A + "AcceptThm", "Api.acc_accU"), (A + "ImageThm", "Api.C01_image_partial")],
+        "partial": "C01_acceptU: acceptance <=> `conforms` on Ty.accU (unions of any shape at any depth; sets, uniqueItems and field-level "
+                   "fall_back_on_default outside) for data with distinct keys and no crash-prone leaf; C01_accept: the same on Ty.acc (a union is only Optional) "
+                   "for every datum with distinct keys; C01_image_partial: typed image on the index-keyed fragment",
         "assumptions": MODEL_ASSUMPTIONS,
     },
     "C02": {
@@ -26,9 +28,10 @@ REGISTRY = {
     },
     "C03": {
         "engine": "engine_deser",
-        "theorems": [(A + "NoCrashThm", "Api.C03_no_crash"), (A + "NoCrashThm", "Api.C03_no_crash_json"), (A + "NoCrashThm", "Api.no_crash"),
+        "theorems": [(A + "NoCrashThm", "Api.C03_no_crashU"), (A + "NoCrashThm", "Api.no_crashU"), (A + "NoCrashThm", "Api.nc_unionSel"),
+                     (A + "NoCrashThm", "Api.C03_no_crash"), (A + "NoCrashThm", "Api.C03_no_crash_json"), (A + "NoCrashThm", "Api.no_crash"),
                      (A + "NoCrashThm", "Api.jsonX_of_json"), (A + "NoCrashThm", "Api.C03_crash_counterexamples")],
-        "partial": "no-crash proved in strict mode on Ty.acc without uniqueItems for every datum of Py.jsonX: JSON containers with string keys whose leaves may be "
+        "partial": "no-crash proved in strict mode on Ty.accU (unions of any shape at any depth) without uniqueItems for every datum of Py.jsonX: JSON containers with string keys whose leaves may be "
                    "any object that is not an instance of the JSON classes (tuples, bytes, ...); coercion, non-string keys, JSON-class subclasses and purity "
                    "(input not modified) are decided by the correspondence / harness only",
         "assumptions": MODEL_ASSUMPTIONS + ["the model is a pure function: 'never modifies the input' is a harness test, not a theorem"],
@@ -46,8 +49,10 @@ REGISTRY = {
         "theorems": [(A + "UnionThm", "Api.C13_sequential"), (A + "UnionThm", "Api.C13_byType"), (A + "UnionThm", "Api.C13_byType_at"),
                      (A + "UnionThm", "Api.C13_byType_eq_sequential"), (A + "UnionThm", "Api.C13_optional"),
                      (A + "UnionThm", "Api.compile_byTypeSound"), (A + "UnionThm", "Api.C13_byType_unsound_float"),
-                     (A + "UnionSelThm", "Api.C01_accept_union")],
-        "partial": "deserialization side: all three union methods = first accepting alternative under the stated side conditions; "
+                     (A + "UnionSelThm", "Api.union_accepts_at"), (A + "UnionSelThm", "Api.C01_accept_union"),
+                     (A + "AcceptUnionThm", "Api.acceptsU"), (A + "AcceptUnionThm", "Api.C01_acceptU")],
+        "partial": "deserialization side: whichever of the three union methods is compiled, at any depth, the union accepts iff some alternative "
+                   "conforms (acceptsU), and all three = first accepting alternative under the stated side conditions; "
                    "discriminators, serialization of unions and TaggedUnion are not modelled yet",
         "assumptions": MODEL_ASSUMPTIONS,
     },
